@@ -52,3 +52,113 @@ Example optimize_sound_nonvacuous :
   psem (fun _ => None) "ab" "v" ex_pred = Some true /\
   optimize ex_pred = RPrefix "a" /\ covers (optimize ex_pred) "ab" = true.
 Proof. repeat split. Qed.
+
+(* ================================================================ C02 AT TEXT LEVEL (appended;
+   Model/PipelineFull.v, Proofs/NarrowTextProofs.v).  [select_stmt_text] is Model/PipelineS.v's twin
+   of NewOptimizer(q).BuildPlan(storage) drained by the caller (every SELECT shape: field list,
+   ORDER BY, GROUP BY / aggregates, LIMIT); [select_stmt_text_full] is the SAME pipeline with the
+   scan node replaced by FullScanPlan{Filter: the same filter}.  [filter_answers q d]: the folded
+   WHERE tree of the accepted text evaluates to true or false (no error) on every stored pair. *)
+From Coq Require Import ZArith.
+From KV Require Import Model.Value Model.Eval Model.EvalVec Model.Storage Model.SelectPlans Model.Pipeline
+                       Model.PipelineS Model.PipelineFull Proofs.StorageProofs Proofs.BatchRowProofs
+                       Proofs.SelectPlansProofs Proofs.NarrowTextProofs.
+From KV Require Model.Order Model.ScanIO.
+Import KV.Model.Value.
+
+(* the squeeze behind it, for any filter / projection / aggregate observation: the row drain of
+   EVERY shape buildFinalPlan builds depends on the slots of the scan only through the accepted
+   pairs, provided the filter answers on every pair among the slots *)
+Theorem every_shape_sees_only_accepted_pairs :
+  forall (P : Type) (frow : P -> res bool) (prow : P -> res Order.row) (F : Type)
+         (fadd fsub fmul fdiv : F -> F -> F) (fltb : F -> F -> bool) (fis0 : F -> bool) (of_Z : Z -> F)
+         (to_Z : F -> Z) (fmt_f bits_f : F -> bytes) (json_f : F -> option bytes) (parse_f : bytes -> option F)
+         (json_s : bytes -> bytes) (T : Type) (t0 : T)
+         (obs_row : Spec.Group.plan F -> T -> P -> res (Spec.Group.pobs F * T))
+         (aconv : list (Spec.Group.value F) -> Order.row) (pi pf : bytes -> option Z)
+         (s : stmt F) (sh : shape) (sl sl' : list (option P)),
+    fok P frow (ScanProj.somes sl) -> fok P frow (ScanProj.somes sl') ->
+    pacc P frow (ScanProj.somes sl) = pacc P frow (ScanProj.somes sl') ->
+    run_shape_row P frow prow F fadd fsub fmul fdiv fltb fis0 of_Z to_Z fmt_f bits_f json_f parse_f json_s
+                  T t0 obs_row aconv pi pf s sh sl
+    = run_shape_row P frow prow F fadd fsub fmul fdiv fltb fis0 of_Z to_Z fmt_f bits_f json_f parse_f json_s
+                  T t0 obs_row aconv pi pf s sh sl'.
+Proof. exact run_shape_row_same_accepted. Qed.
+Print Assumptions every_shape_sees_only_accepted_pairs.
+
+(* ROW MODE: for every text, every strictly sorted store: the statement over the access path the
+   planner picked and the statement over a full scan have the SAME outcome -- rows, values,
+   order, errors with class and position, rejections -- for every shape *)
+Theorem narrowed_text_eq_full :
+  forall (fo : fops) (re : bytes -> bytes -> res bool) (fmt_v : F fo -> string) (ag : aggops fo)
+         (pi pf : bytes -> option Z) (q : string) (d : store),
+    ssorted d -> filter_answers fo re fmt_v q d ->
+    select_stmt_text_st fo re fmt_v ag pi pf q d MRow = select_stmt_text_full_st fo re fmt_v ag pi pf q d MRow.
+Proof. exact narrowed_text_eq_full_row_st. Qed.
+Print Assumptions narrowed_text_eq_full.
+
+(* BATCH MODE, every batch size >= 1: when both drains complete, the same rows (up to string /
+   []byte, [nrows]).  narrowed_text_eq_full_batch_partial: the FULL statement would be equality
+   of the two outcomes as in row mode; missing: the error cases (the first error of a batch drain
+   depends on the chunk boundaries, which differ between the two scans) and "the full scan
+   completes => the narrowed scan completes" in batch mode. *)
+Theorem narrowed_text_eq_full_batch_partial :
+  forall (fo : fops) (re : bytes -> bytes -> res bool) (fmt_v : F fo -> string) (ag : aggops fo)
+         (pi pf : bytes -> option Z) (q : string) (d : store) (B : nat) (rows rows' : list Order.row),
+    1 <= B -> ssorted d -> filter_answers fo re fmt_v q d ->
+    (forall pl, plan_stmt_text fo re fmt_v q = STOk pl -> fields_ok (q_fields fo (sp_q fo pl))) ->
+    select_stmt_text fo re fmt_v ag pi pf q d (MBatch B) = TOk rows ->
+    select_stmt_text_full fo re fmt_v ag pi pf q d (MBatch B) = TOk rows' ->
+    nrows rows = nrows rows'.
+Proof. exact narrowed_text_eq_full_batch_ok. Qed.
+Print Assumptions narrowed_text_eq_full_batch_partial.
+
+(* before any pair is read the two agree unconditionally (same BuildPlan) *)
+Theorem narrowed_text_same_front :
+  forall (fo : fops) (re : bytes -> bytes -> res bool) (fmt_v : F fo -> string) (ag : aggops fo)
+         (pi pf : bytes -> option Z) (q : string) (d : store) (m : tmode),
+    (forall pl, plan_stmt_text fo re fmt_v q <> STOk pl) ->
+    select_stmt_text_st fo re fmt_v ag pi pf q d m = select_stmt_text_full_st fo re fmt_v ag pi pf q d m.
+Proof. exact narrowed_text_front_same. Qed.
+Print Assumptions narrowed_text_same_front.
+
+(* ---- non-vacuity: a prefix scan under ORDER BY + LIMIT over a projection, and a multi-get under
+   a GROUP BY aggregate; the premise holds, both sides computed *)
+Definition nt_store : Storage.store := [("a", "3"); ("ab", "1"); ("ac", "9"); ("b", "2"); ("c", "1")].
+Definition nt_q1 : string := "select key, int(value) as n where key ^= 'a' & value != '9' order by n desc limit 1, 5".
+Definition nt_q2 : string := "select value as g, count(1) as c where key in ('a', 'c', 'zz', 'ab') group by g".
+
+Example narrowed_text_nonvacuous :
+  forall (fo : fops) (re : bytes -> bytes -> res bool) (fmt_v : F fo -> string) (ag : aggops fo)
+         (pi pf : bytes -> option Z),
+  ssorted nt_store /\
+  (exists pl, plan_stmt_text fo re fmt_v nt_q1 = STOk pl /\ sp_scan fo pl = ScanIO.SPrefix "a") /\
+  filter_answers fo re fmt_v nt_q1 nt_store /\
+  select_stmt_text fo re fmt_v ag pi pf nt_q1 nt_store MRow = TOk [[Order.VBytes "ab"; Order.VInt 1]] /\
+  select_stmt_text_full fo re fmt_v ag pi pf nt_q1 nt_store MRow = TOk [[Order.VBytes "ab"; Order.VInt 1]] /\
+  (exists pl, plan_stmt_text fo re fmt_v nt_q2 = STOk pl /\ sp_scan fo pl = ScanIO.SMget ["a"; "ab"; "c"; "zz"]) /\
+  filter_answers fo re fmt_v nt_q2 nt_store /\
+  select_stmt_text fo re fmt_v ag pi pf nt_q2 nt_store MRow
+    = TOk [[Order.VBytes "3"; Order.VInt 1]; [Order.VBytes "1"; Order.VInt 2]] /\
+  select_stmt_text_full fo re fmt_v ag pi pf nt_q2 nt_store (MBatch 2)
+    = TOk [[Order.VBytes "3"; Order.VInt 1]; [Order.VBytes "1"; Order.VInt 2]].
+Proof.
+  intros.
+  assert (FA : forall q, (exists pl0, plan_stmt_text fo re fmt_v q = STOk pl0 /\
+                  forall kv, In kv nt_store -> exists b, LimitLazy.sel_frow fo re (q_where fo (sp_q fo pl0)) kv = Ok b) ->
+               filter_answers fo re fmt_v q nt_store).
+  { intros q (pl0 & E0 & H0) pl Ep. rewrite E0 in Ep. injection Ep as <-. exact H0. }
+  split; [cbn; repeat split; reflexivity|].
+  split; [eexists; split; vm_compute; reflexivity|].
+  split.
+  { apply FA. eexists. split; [vm_compute; reflexivity|].
+    intros kv Hin. cbn [In nt_store] in Hin.
+    repeat (destruct Hin as [<-|Hin]; [eexists; vm_compute; reflexivity|]). contradiction. }
+  split; [vm_compute; reflexivity|]. split; [vm_compute; reflexivity|].
+  split; [eexists; split; vm_compute; reflexivity|].
+  split.
+  { apply FA. eexists. split; [vm_compute; reflexivity|].
+    intros kv Hin. cbn [In nt_store] in Hin.
+    repeat (destruct Hin as [<-|Hin]; [eexists; vm_compute; reflexivity|]). contradiction. }
+  split; vm_compute; reflexivity.
+Qed.
